@@ -18,7 +18,7 @@ MANIFEST = dict(
     design="5/C10")
 INVS = ["TypeOK", "CbAtMostOnce", "CbAfterSubtree", "ExitNeverFails", "FoldOrder"]
 PROPS = ["Attribution", "CompletedStable"]
-INTERNAL = ["RunCb"]
+INTERNAL = ["RunCb", "Finish"]
 MT = ["Cat", "Last", "Sum", "Boom"]
 
 
